@@ -231,7 +231,11 @@ class StringLiteral(StrCompareMixin, _Literal):
     def __init__(self, value, **kwargs):
         # Remove quotation marks
         if value[0] == value[-1] and value[0] in '"\'':
-            value = value[1:-1]
+            if value[0] == '"':
+                # Inside double quotes, a doubled double quote denotes a single one
+                value = value[1:-1].replace('""', '"')
+            else:
+                value = value[1:-1]
 
         self.value = value
 
